@@ -3,6 +3,7 @@
 package main
 
 import (
+	"testing/synctest"
 	"encoding/json"
 	"fmt"
 	"os"
@@ -26,6 +27,9 @@ type c04Probe struct {
 type c04Case struct {
 	Users  []seedUser `json:"users"`
 	Broken string     `json:"broken"` // how one extra user is made to produce an internal error
+	// agent options that must not influence a verdict: hash upgrades on login, a password policy (it governs writes)
+	Upgrades string `json:"upgrades,omitempty"`
+	Policy   string `json:"policy,omitempty"`
 	Probes []c04Probe `json:"probes"`
 }
 
@@ -61,6 +65,8 @@ func genC04(t *rapid.T) c04Case {
 		c.Users = append(c.Users, seedUser{Name: names[i], PW: pw, Admin: rapid.Bool().Draw(t, "admin"), PID: uint(rapid.IntRange(1, 2).Draw(t, "pid"))})
 	}
 	c.Broken = rapid.SampledFrom([]string{"", "unknown-pid", "directory", "garbage", "empty"}).Draw(t, "broken")
+	c.Upgrades = rapid.SampledFrom([]string{"", "", "local"}).Draw(t, "upgrades")
+	c.Policy = rapid.SampledFrom([]string{"", "", "score >= 3"}).Draw(t, "policy")
 	for i, n := 0, rapid.IntRange(2, 14).Draw(t, "nprobes"); i < n; i++ {
 		u := c.Users[rapid.IntRange(0, len(c.Users)-1).Draw(t, "u")]
 		p := c04Probe{User: u.Name, PW: u.PW, Kind: "right", Frontend: rapid.SampledFrom(c04Frontends).Draw(t, "frontend"),
@@ -112,11 +118,18 @@ func genC04(t *rapid.T) c04Case {
 }
 
 func runC04(c c04Case) string {
-	e, err := newAgentEnv(schedConfig(), c.Users, "", "", "", "")
+	ptype := ""
+	if c.Policy != "" {
+		ptype = "zxcvbn"
+	}
+	e, err := newAgentEnv(schedConfig(), c.Users, c.Upgrades, ptype, c.Policy, "")
 	if err != nil {
 		return "VERIF-INFRA " + err.Error()
 	}
 	defer e.cleanup()
+	if c.Upgrades != "" || c.Policy != "" {
+		vlib.Class(fmt.Sprintf("agent-options:upgrades=%q,policy=%v", c.Upgrades, c.Policy != ""))
+	}
 	bf := filepath.Join(e.base, "broken.user")
 	switch c.Broken {
 	case "unknown-pid":
@@ -167,7 +180,9 @@ func runC04(c c04Case) string {
 			return fmt.Sprintf("VIOLATION C04: frontend %s returned accept=%v for user %s password %s, the store's verdict for (%s) is %v [probe #%d kind=%s] %s",
 				fe, got, vlib.Q(name), vlib.Q(p.PW), vlib.Q(storeName), want, i, p.Kind, detail)
 		}
-		if diff := before.Diff(vlib.TakeSnap(e.root), true, nil); len(diff) > 0 {
+		synctest.Wait()
+		// (with upgrades enabled a successful login may rewrite that user's record: C12 judges that)
+		if diff := before.Diff(vlib.TakeSnap(e.root), true, nil); len(diff) > 0 && !(c.Upgrades == "local" && want) {
 			return fmt.Sprintf("VIOLATION C04: authentication through %s changed the store: %v", fe, diff)
 		}
 		special := strings.ContainsAny(p.PW, ":@,=+\x00\n\r\t\"\\ ") || !utf8.ValidString(p.PW) || len(p.PW) >= 255
